@@ -285,6 +285,74 @@ func c12Reader(r *eng.Run) {
 		}
 		r.Probe("reader_reused_across_messages")
 	}
+	// One Reader over one source that carries message after message: it
+	// reports io.EOF at the end of each and then goes on with the next (what
+	// a frame reader does), through Read or ReadByte.
+	if r.T.Chance(sim.LHist, 1, 3) {
+		src := &seqSource{byteReader: r.T.Bool(sim.LCfg), max: 1 + r.T.Int(sim.LSeg, 17)}
+		var msgs [][]byte
+		for i := 0; i < 2+r.T.Int(sim.LHist, 3); i++ {
+			m := drawFlateMsg(r)
+			if len(m) > 2000 {
+				m = m[:2000]
+			}
+			msgs = append(msgs, m)
+			src.parts = append(src.parts, deflateIndependent(m, r.T.Int(sim.LCfg, 2), 1+r.T.Int(sim.LCfg, 9)))
+		}
+		var rd io.Reader = src
+		if !src.byteReader {
+			rd = struct{ io.Reader }{src}
+		}
+		fr := wsflate.NewReader(rd, drawDtor(r))
+		for i, m := range msgs {
+			if i > 0 {
+				fr.Reset(rd)
+			}
+			got, err := io.ReadAll(fr)
+			if err != nil || !bytes.Equal(got, m) {
+				r.Failf("roundtrip_mismatch", "wsflate.Reader over a source carrying %d messages (byteReader=%v), message %d (%d bytes): got %d bytes, err %v", len(msgs), src.byteReader, i, len(m), len(got), err)
+			}
+			if src.cur != i+1 || src.off != 0 {
+				r.Failf("reader_overread", "wsflate.Reader, message %d: the source stands at message %d offset %d afterwards (bytes of the next message were taken or some were left)", i, src.cur, src.off)
+			}
+		}
+		r.Probe("reader_over_self_advancing_source")
+	}
+}
+
+// seqSource carries several compressed messages: at the end of each it
+// returns io.EOF once, then continues with the next one.
+type seqSource struct {
+	parts      [][]byte
+	cur, off   int
+	byteReader bool
+	max        int
+}
+
+func (s *seqSource) Read(p []byte) (int, error) {
+	if s.cur >= len(s.parts) {
+		return 0, io.EOF
+	}
+	if len(p) == 0 {
+		return 0, nil
+	}
+	b := s.parts[s.cur][s.off:]
+	if len(b) == 0 {
+		s.cur, s.off = s.cur+1, 0
+		return 0, io.EOF
+	}
+	n := copy(p[:minInt(len(p), s.max)], b)
+	s.off += n
+	return n, nil
+}
+
+func (s *seqSource) ReadByte() (byte, error) {
+	var one [1]byte
+	n, err := s.Read(one[:])
+	if n == 1 {
+		return one[0], nil
+	}
+	return 0, err
 }
 
 func c12Helpers(r *eng.Run) {
@@ -356,6 +424,20 @@ func c12Helpers(r *eng.Run) {
 		in.Payload = deflateIndependent(keep, r.T.Int(sim.LCfg, 4), 5)
 		in.Header.Length = int64(len(in.Payload))
 	}
+	// The payload as a receiver has it: part of a larger buffer with the next
+	// frame's bytes right behind it.
+	room := make([]byte, len(in.Payload)+24)
+	copy(room, in.Payload)
+	for i := len(in.Payload); i < len(room); i++ {
+		room[i] = 0xEE
+	}
+	in.Payload = room[:len(in.Payload)]
+	roomKeep := append([]byte(nil), room...)
+	defer func() {
+		if !bytes.Equal(room, roomKeep) {
+			r.FailProp("C17", "caller_slice_modified", "decompress helper (variant %d) changed the caller's buffer (payload of %d bytes inside a %d byte buffer)%s", variant, len(in.Payload), len(room), firstDiff(room, roomKeep))
+		}
+	}()
 	var df ws.Frame
 	switch variant {
 	case 0:
@@ -377,6 +459,50 @@ func c12Helpers(r *eng.Run) {
 	wantD.Length = int64(len(keep))
 	if df.Header != wantD || !bytes.Equal(df.Payload, keep) {
 		r.Failf("roundtrip_mismatch", "decompressed frame: header %+v (expected %+v), payload %d bytes%s", df.Header, wantD, len(df.Payload), firstDiff(df.Payload, keep))
+	}
+	// Other Helper values of the same process, after the default one has been
+	// used: each works with its own compressor.
+	if r.T.Chance(sim.LHist, 1, 3) {
+		broken := wsflate.Helper{
+			Compressor: func(d io.Writer) wsflate.Compressor {
+				c := &faultyCompressor{dst: d, mode: 0} // never writes the sync marker
+				c.fw, _ = flate.NewWriter(d, 5)
+				return c
+			},
+			Decompressor: func(src io.Reader) wsflate.Decompressor { return flate.NewReader(src) },
+		}
+		if p, err := broken.Compress(keep); err == nil {
+			if got, ierr := inflateIndependent(p); ierr != nil || !bytes.Equal(got, keep) {
+				r.Failf("corrupt_message_reported_as_success", "a Helper whose compressor never ends a flush with the tail returned %d bytes and no error after the default Helper had been used; they do not inflate to the message (%v)", len(p), ierr)
+			}
+		}
+		lvl := []int{0, 1, 9}[r.T.Int(sim.LCfg, 3)]
+		own := wsflate.Helper{
+			Compressor:   func(d io.Writer) wsflate.Compressor { f, _ := flate.NewWriter(d, lvl); return f },
+			Decompressor: func(src io.Reader) wsflate.Decompressor { return flate.NewReader(src) },
+		}
+		p, err := own.Compress(keep)
+		if err != nil {
+			r.Failf("unexpected_error", "Helper with a level %d compressor: %v", lvl, err)
+		}
+		if got, ierr := inflateIndependent(p); ierr != nil || !bytes.Equal(got, keep) {
+			r.Failf("roundtrip_mismatch", "Helper with a level %d compressor: payload does not inflate to the original (%v)", lvl, ierr)
+		}
+		// What a Writer built directly on that compressor emits for the
+		// same calls (Write, Flush, Close).
+		var direct bytes.Buffer
+		dw := wsflate.NewWriter(&direct, own.Compressor)
+		dw.Write(keep)
+		dw.Flush()
+		dw.Close()
+		if want := direct.Bytes(); !bytes.Equal(p, want) {
+			r.Failf("helper_ignores_its_compressor", "Helper with a level %d compressor produced %d bytes that are not what that compressor emits (%d bytes)%s", lvl, len(p), len(want), firstDiff(p, want))
+		}
+		back, err := own.Decompress(p)
+		if err != nil || !bytes.Equal(back, keep) {
+			r.Failf("roundtrip_mismatch", "Helper with a level %d compressor: Decompress gave %d bytes, err %v", lvl, len(back), err)
+		}
+		r.Probe("several_helper_values_in_one_process")
 	}
 	// An uncompressed frame passes through untouched.
 	if variant < 2 {
